@@ -1600,3 +1600,122 @@ async fn second_ghost_chain_leaves_index_and_tip_on_one_chain() {
         .unwrap();
     if !(indexed_at_5 == b[1]) { witness(format!("the node reports tip 6' whose parent is 5' ({}), but the longest-chain index at height 5 names block 5 of the abandoned fork ({}; it is the old block 5: {}): add_ghost_block marks entry 0 of the height as on-chain instead of the block it has just filed, so index and tip describe two different chains", hex::encode(&b[1][..4]), hex::encode(&indexed_at_5[..4]), indexed_at_5 == a[4])); }
 }
+
+/// C19: the inputs the wallet hands out are unspent outputs the ledger still accepts — also for the staking transaction, at the height where an output is listed past its window
+#[tokio::test]
+#[serial_test::serial]
+async fn block_bundled_at_the_rebroadcast_height_is_accepted_by_its_own_node() {
+    #[allow(unused_imports)] use crate::core::util::test::node_tester::test::NodeTester;
+    #[allow(unused_imports)] use crate::core::defs::NOLAN_PER_SAITO;
+    #[allow(unused_imports)] use crate::core::defs::PrintForLog;
+    #[allow(unused_imports)] use crate::core::util::crypto::hash;
+    use crate::core::consensus::blockchain::AddBlockResult;
+    use crate::core::consensus::transaction::TransactionType;
+    use crate::core::consensus::wallet::Wallet;
+    use crate::core::util::test::test_manager::test::TestManager;
+    use std::ops::Deref;
+
+    NodeTester::delete_data().await.unwrap();
+    let genesis_period: u64 = 10;
+    let mut tester = NodeTester::new(genesis_period, None, None);
+    let public_key = tester.get_public_key().await;
+    let issuance = vec![
+        (public_key.to_base58(), 100 * NOLAN_PER_SAITO),
+        (public_key.to_base58(), 20 * NOLAN_PER_SAITO),
+        (
+            "27UK2MuBTdeARhYp97XBnCovGkEquJjkrQntCgYoqj6GC".to_string(),
+            50 * NOLAN_PER_SAITO,
+        ),
+    ];
+    tester.set_issuance(issuance).await.unwrap();
+    tester.set_staking_enabled(false).await;
+    tester.init().await.unwrap();
+    tester.wait_till_block_id(1).await.unwrap();
+    for i in 2..=(1 + genesis_period) {
+        let tx = tester
+            .create_transaction(NOLAN_PER_SAITO, NOLAN_PER_SAITO, public_key)
+            .await
+            .unwrap();
+        tester.add_transaction(tx).await;
+        tester.wait_till_block_id(i).await.unwrap();
+    }
+    tester
+        .set_staking_requirement(2 * NOLAN_PER_SAITO, 8)
+        .await;
+
+    // a fee-paying transaction for the next block
+    let tx = tester
+        .create_transaction(NOLAN_PER_SAITO, NOLAN_PER_SAITO, public_key)
+        .await
+        .unwrap();
+
+    let config_lock = tester.consensus_thread.config_lock.clone();
+    let blockchain_lock = tester.consensus_thread.blockchain_lock.clone();
+    let mempool_lock = tester.consensus_thread.mempool_lock.clone();
+    let configs = config_lock.read().await;
+    let mut blockchain = blockchain_lock.write().await;
+    let mut mempool = mempool_lock.write().await;
+    assert_eq!(blockchain.get_latest_block_id(), 1 + genesis_period);
+
+    mempool.add_transaction_if_validates(tx, &blockchain).await;
+    assert_eq!(mempool.transactions.len(), 1, "setup: the transaction is pooled");
+
+    // a golden ticket for the tip: the pooled one if the miner has found one already, else one mined here
+    // (whether the chain lets a block without a ticket follow depends on what the miner found before)
+    let gt_tx = match mempool
+        .golden_tickets
+        .get(&blockchain.get_latest_block_hash())
+        .map(|(tx, _)| tx.clone())
+    {
+        Some(tx) => Some(tx),
+        None => {
+            let tip = blockchain.get_latest_block().unwrap();
+            let golden_ticket = TestManager::create_golden_ticket(
+                tester.consensus_thread.wallet_lock.clone(),
+                tip.hash,
+                tip.difficulty,
+            )
+            .await;
+            let wallet = tester.consensus_thread.wallet_lock.read().await;
+            let mut gttx = Wallet::create_golden_ticket_transaction(
+                golden_ticket,
+                &wallet.public_key,
+                &wallet.private_key,
+            )
+            .await;
+            gttx.generate(&public_key, 0, 0);
+            Some(gttx)
+        }
+    };
+    let timestamp = blockchain.get_latest_block().unwrap().timestamp + 600_000;
+    let block = mempool
+        .bundle_block(
+            &blockchain,
+            timestamp,
+            gt_tx,
+            configs.deref(),
+            &tester.consensus_thread.storage,
+        )
+        .await;
+    // (whether a block comes out depends on the ticket the harness happened to mine: no block — and the pool as it
+    // was — is an outcome the property allows, and leaves nothing to judge here)
+    let block = match block {
+        Some(block) => block,
+        None => return,
+    };
+    let staking_txs = block
+        .transactions
+        .iter()
+        .filter(|tx| tx.transaction_type == TransactionType::BlockStake)
+        .count();
+
+    let result = blockchain
+        .add_block(
+            block,
+            &mut tester.consensus_thread.storage,
+            &mut mempool,
+            configs.deref(),
+        )
+        .await;
+    if !(matches!(result, AddBlockResult::BlockAddedSuccessfully(_, true, _))) { witness(format!("the block a staking node with enough spendable funds bundles must be accepted by the node itself, but since 6037037 the wallet stakes the output that is listed past its retention window, the staking transaction is dropped and the block (staking transactions in it : {:?}) is refused", staking_txs)); }
+}
